@@ -109,6 +109,9 @@ func failStep(c authCase) int {
 			if strings.HasPrefix(c.Mech, "SCRAM") && (c.Fault == "wrong-password" || c.Fault == "unknown-user") {
 				return 2
 			}
+			if n := legsOf(c.Mech); n > 0 && (c.Fault == "wrong-password" || c.Fault == "unknown-user") {
+				return n
+			}
 			return f.step
 		}
 	}
@@ -155,7 +158,44 @@ type result struct {
 	wrong     string // the real request was answered, but not with what the model holds
 }
 
+// legsMech is a user-written sasl.Mechanism (the interface is public) of a configurable number of round trips.
+type legsMech struct {
+	user, pass string
+	legs       int
+}
+
+func (m legsMech) Name() string { return "LEGS" }
+
+func (m legsMech) Start(ctx context.Context) (sasl.StateMachine, []byte, error) {
+	return &legsSession{m: m, sent: 1}, []byte(fmt.Sprintf("leg-1\x00%s\x00%s", m.user, m.pass)), nil
+}
+
+type legsSession struct {
+	m    legsMech
+	sent int
+}
+
+func (s *legsSession) Next(ctx context.Context, challenge []byte) (bool, []byte, error) {
+	if s.sent >= s.m.legs {
+		return true, nil, nil // the server accepted the last leg (a refusal arrives as an error code, not here)
+	}
+	if string(challenge) != fmt.Sprintf("more-%d", s.sent) {
+		return false, nil, fmt.Errorf("legs: unexpected challenge %q after leg %d", challenge, s.sent)
+	}
+	s.sent++
+	return false, []byte(fmt.Sprintf("leg-%d\x00%s\x00%s", s.sent, s.m.user, s.m.pass)), nil
+}
+
+func legsOf(mech string) int {
+	n := 0
+	fmt.Sscanf(mech, "LEGS-%d", &n)
+	return n
+}
+
 func mechanism(c authCase, user, pass string) (sasl.Mechanism, error) {
+	if n := legsOf(c.Mech); n > 0 {
+		return legsMech{user: user, pass: pass, legs: n}, nil
+	}
 	switch c.Mech {
 	case "PLAIN":
 		return plain.Mechanism{Username: user, Password: pass}, nil
@@ -169,7 +209,7 @@ func mechanism(c authCase, user, pass string) (sasl.Mechanism, error) {
 // serverForm is what the broker stores: PLAIN clients send the raw string,
 // SCRAM clients its SASLprep form.
 func serverForm(c authCase, x cred) string {
-	if c.Mech == "PLAIN" {
+	if c.Mech == "PLAIN" || legsOf(c.Mech) > 0 {
 		return x.Raw
 	}
 	return x.Prep
@@ -190,7 +230,7 @@ func run(tb ev.TB, c authCase) {
 	}
 	cl.SetVersions(0, 36, 0, c.AuthMax)
 
-	cfg := &fakecluster.SASLConfig{Mechanisms: append([]string{}, mechs...), Users: map[string]string{}, Iterations: c.Iterations}
+	cfg := &fakecluster.SASLConfig{Mechanisms: append([]string{"LEGS"}, mechs...), Users: map[string]string{}, Iterations: c.Iterations, Legs: legsOf(c.Mech)}
 	user, pass := serverForm(c, c.User), serverForm(c, c.Pass)
 	cfg.Users[user] = pass
 	for i := 0; i < c.Decoys; i++ {
@@ -937,6 +977,23 @@ func TestGenerated(t *testing.T) {
 		c.First = int64(rapid.IntRange(0, 50).Draw(t, "first"))
 		c.Last = c.First + int64(rapid.IntRange(0, 50).Draw(t, "span"))
 		c.NamedPort = (co.Entry == "dial" || co.Entry == "dialleader") && rapid.IntRange(0, 4).Draw(t, "namedPort") == 0
+		run(t, c)
+	})
+}
+
+
+// TestLegs: a user-written mechanism of 1-12 round trips (PLAIN needs one, SCRAM two; the interface allows any number)
+// through every entry point, with right and wrong credentials: the exchange is complete when the mechanism says so, not
+// after some number of steps.
+func TestLegs(t *testing.T) {
+	rapid.Check(t, func(t *rapid.T) {
+		c := authCase{Mech: fmt.Sprintf("LEGS-%d", rapid.SampledFrom([]int{1, 2, 3, 7, 8, 9, 10, 12}).Draw(t, "legs")), HandshakeMax: int16(rapid.IntRange(0, 1).Draw(t, "handshakeMax")),
+			AuthMax: int16(rapid.IntRange(0, 1).Draw(t, "authMax")), Entry: rapid.SampledFrom(entries).Draw(t, "entry"),
+			Fault: rapid.SampledFrom([]string{"none", "none", "wrong-password", "unknown-user"}).Draw(t, "fault"),
+			User:  genCred(t, "user"), Pass: genCred(t, "pass"), Decoys: rapid.IntRange(0, 2).Draw(t, "decoys"), Iterations: 4096}
+		c.WrongPass = wrongOf(c.Pass, rapid.IntRange(0, 3).Draw(t, "wrongHow"))
+		c.First = int64(rapid.IntRange(0, 50).Draw(t, "first"))
+		c.Last = c.First + int64(rapid.IntRange(0, 50).Draw(t, "span"))
 		run(t, c)
 	})
 }
